@@ -35,7 +35,8 @@ THEOREMS = ["Hyp.Concurrency." + t for t in (
     "c19_length_merge", "c19_write_skew_needs_rw")] + ["Hyp.CIdx." + t for t in (
     "c19_field_init", "c19_field_txn_refines", "c19_field_conflict_or_serial", "c19_field_serial_refines",
     "c19_field_merged_observes_serial", "c19_d20_unrepaired_loses_update", "c19_d20_repaired_conflicts",
-    "c19_replacement_conflicts", "c19_keyword_conflict_or_serial_partial")]
+    "c19_replacement_conflicts", "c19_keyword_no_orphan_merge", "c19_keyword_init", "c19_keyword_txn_refines",
+    "c19_keyword_conflict_or_serial", "c19_keyword_serial_refines", "c19_keyword_merged_observes_serial")]
 CASES = {"quick": 640, "thorough": 12000}
 BUDGET_S = {"quick": 50, "thorough": 800}
 BATCH = 10
@@ -56,19 +57,17 @@ LEVEL_TEXT = ("Lean 4: (1) generic optimistic commit with three-way merges: merg
               "reference, posting objects with their own identity incl. the Set -> TreeSet replacement, reverse "
               "tree, not-indexed set, Length) with read/write footprints and BTrees' rules (per-key merge, "
               "conflict when both changed a key, when the committed or new state is empty, when the merged one "
-              "would be). Field index, for all bases satisfying the C01 invariant and all operation lists on "
-              "disjoint docids: the second commit conflicts or the merged heap satisfies the C01 invariant for "
-              "the serial table (c19_field_conflict_or_serial; queries, counts, statistics = serial). Keyword "
-              "index: D20 as theorems - unrepaired replacement merges and loses the update (witness), repaired "
-              "code: replacing a posting object the other side wrote always conflicts (all bases, thresholds, "
-              "operation lists). Runtime half: two real connections vs serial replay, and real ok+ok => model "
-              "merge ok with the same stored state")
+              "would be). Field index and keyword index (repaired code, any tree_threshold), for all bases "
+              "satisfying the C01 / C02 invariant and all operation lists on disjoint docids: the second commit "
+              "conflicts or the merged heap satisfies the invariant for the serial table "
+              "(c19_field_conflict_or_serial, c19_keyword_conflict_or_serial; queries, counts, statistics = "
+              "serial). D20 as theorems: the unrepaired replacement merges and loses the update (witness); "
+              "repaired code: replacing a posting object the other side wrote always conflicts. Runtime half: "
+              "two real connections vs serial replay, and real ok+ok => model merge ok with the same stored state")
 LEVEL_NOTE = ("partial: thread scheduling, MVCC, storage and the real conflict-resolution code are ZODB/BTrees' "
               "(trusted, sampled; the model's merge rules are a subset of BTrees' refusals, checked in the "
-              "direction real success => model success); the full conflict-or-serial theorem is proved for the "
-              "field index, for the keyword index only the replacement/orphan-merge part "
-              "(c19_keyword_conflict_or_serial_partial; full statement kept in Properties/C19Index.lean); "
-              "facet and text indexes: object model (facet) / runs only (text)")
+              "direction real success => model success); the conflict-or-serial theorem is proved for the field "
+              "and the keyword index; facet index: object model and runs only; text indexes: runs only")
 TECHNIQUE = "Lean 4 proof about the three-way-merge abstraction + two-connection differential run on a real FileStorage"
 
 c09 = importlib.import_module("props.c09")
